@@ -174,6 +174,20 @@ Theorem C05_loaded_trie_answers :
 Proof. exact loaded_answers. Qed.
 Print Assumptions C05_loaded_trie_answers.
 
+(* ... Search and RangeGet (the stored values of the searchID triple) *)
+Theorem C05_loaded_trie_values :
+  forall (Levels : Type) (init_levels : slim -> Levels) (reset_levels : Levels)
+         (conv510 : slim -> slim) (conv3 : list byte -> list byte -> list byte -> slim)
+         o keys vals T m vs s (st : inst VarsT Levels) h q fuel,
+    build o keys vals = Ok T -> Bits.encode_trie T = Val m -> Bits.init_vars m = Val vs ->
+    wf_msg (to_wire m) = true -> marshal_gen (to_wire m) = Some s ->
+    (trie_height T <= fuel)%nat ->
+    let st' := run compat_gen cur_gen VarsT Levels ivars init_levels reset_levels conv510 conv3 st (h ++ [OpUnmarshal s]) in
+    inst_search Levels st' (S fuel) q = search T q /\
+    inst_rangeget Levels st' (S fuel) q = rangeget T q.
+Proof. exact loaded_answers_values. Qed.
+Print Assumptions C05_loaded_trie_values.
+
 (* ... and scans identically: NewIter (every call of the returned closure, also after
    exhaustion), ScanFrom and ScanFromTo with any callback, run over the loaded instance the
    way the Go code runs them (ScanMsg.v: getGEPath, newIter, next over node ids, getNode,
